@@ -616,6 +616,11 @@ def bi_len(it, args, kw):
 
 def bi_range(it, args, kw):
     a = [x for x in args]
+    for i, x in enumerate(a):       # a bound the path condition determines (e.g. numbins after `if numbins != 2: raise`) is used concretely
+        if isinstance(x, SV) and L.is_int(x.t) and getattr(it, "concretize_ranges", False):
+            u = it.unique_int(x.t)
+            if u is not None:
+                a[i] = u
     for x in a:
         if isinstance(x, (Fraction, float)) or (isinstance(x, SV) and not L.is_int(x.t)):
             raise RaiseSig(ExcV("TypeError", ("range() needs integers",)))
@@ -1335,6 +1340,10 @@ def _as_numlist(it, x):
 
 def np_zeros(it, args, kw):
     n = args[0]
+    if isinstance(n, SV) and L.is_int(n.t):
+        u = it.unique_int(n.t)
+        if u is not None:
+            n = u
     if not isinstance(n, int):
         if isinstance(n, SV):
             raise Unsupported("np.zeros with a symbolic length")
